@@ -369,12 +369,28 @@ def _str_of(x):
 
 
 def run_impl(case):
-    from maflib.validation import MafFormatException, MafValidationErrorType, ValidationStringency
-    from maflib.record import MafRecord
+    """field / line cases are parsed twice when the first parse exposes a list value: the caller appends to every
+    exposed list in between (ordinary annotation code), and the second parse must denote the same values"""
     if case["kind"] == "writeseq":
         return run_writeseq(case)
     if case["kind"] == "write":
         return run_write(case)
+    held = []
+    r = _run_parse(case, held)
+    lists = [v for v in held if isinstance(v, list)]
+    if lists:
+        for v in lists:
+            v.append("caller-appended")
+        r2 = _run_parse(case, [])
+        if r2["cmp"] != r["cmp"]:
+            keys = sorted(k for k in set(r["cmp"]) | set(r2["cmp"]) if r["cmp"].get(k) != r2["cmp"].get(k))
+            r.setdefault("extra", {})["history_dependent"] = [keys, json_short(r2["cmp"].get(keys[0]))]
+    return r
+
+
+def _run_parse(case, held):
+    from maflib.validation import MafFormatException, MafValidationErrorType, ValidationStringency
+    from maflib.record import MafRecord
     if case["kind"] == "field":
         cls = H.cls_of_spec(case["cls"])
         try:
@@ -384,6 +400,7 @@ def run_impl(case):
         except Exception as e:
             return {"cmp": {"build": ["raise", H.exc_code(e)]}}
         errs = H.enc_errors(col.validate(), ["k"])
+        held.append(col.value)
         obs = {"build": ["ok", H.enc_value(col.value)], "errors": errs, "str": _str_of(col), "is_null": bool(col.is_null())}
         extra = {"cls_name": type(col).__name__}
         # C04: re-parse the rendering
@@ -410,6 +427,8 @@ def run_impl(case):
     for i in range(len(rec)):
         c = rec[i]
         slots.append(None if c is None else [c.key, c.column_index, H.enc_value(c.value)])
+        if c is not None:
+            held.append(c.value)
     obs = {"errors": H.enc_errors(rec.validation_errors, names), "len": len(rec), "slots": slots, "str": _str_of(rec)}
     extra = {"names": names, "values": [H.enc_value(rec.value(n)) for n in names]}
     # C04: render, re-parse, render again
@@ -431,6 +450,8 @@ def oracle_c01(case, obs):
     """the documented domains decide, independently of the model"""
     out = []
     o = obs["cmp"]
+    if obs.get("extra", {}).get("history_dependent"):
+        out.append("typed-value-depends-on-what-a-caller-did-to-an-earlier-record | %s" % (obs["extra"]["history_dependent"],))
     if case["kind"] == "field":
         d = descr_of_spec(case["cls"])
         if d is None:
@@ -612,6 +633,17 @@ def gen_write(rng, annots=None, strict_share=0.8):
     stream = rng.choice(["valid", "valid", "value1", "value1", "class1", "shape", "germline", "multi"])
     hit = []
 
+    def pick_col():
+        """a column position: first/last/uniform, or (half of the time) stratified by descriptor kind so that the
+        kinds with one or two columns in a layout (strand, bool, canonical, entrez, uuid) are perturbed as often as text"""
+        if rng.random() < 0.5:
+            return rng.choice([0, len(cols) - 1, rng.randrange(len(cols))])
+        by = {}
+        for j, (_, dd) in enumerate(cols):
+            kk = dd["base"]["k"] if dd["k"] == "mustnull" else dd["k"]
+            by.setdefault(kk, []).append(j)
+        return rng.choice(by[rng.choice(sorted(by))])
+
     def perturb_value(i):
         slots[i]["value"] = kind_odd_value(rng, cols[i][1]) if i < len(cols) else rng.choice(ODD_VALUES)
         hit.append(i)
@@ -633,9 +665,9 @@ def gen_write(rng, annots=None, strict_share=0.8):
         hit.append(i)
 
     if stream == "value1":
-        perturb_value(rng.choice([0, len(cols) - 1, rng.randrange(len(cols))]))
+        perturb_value(pick_col())
     elif stream == "class1":
-        perturb_class(rng.randrange(len(cols)))
+        perturb_class(pick_col())
     elif stream == "germline":
         gl = [i for i, (n, _) in enumerate(cols) if n in SP.GERMLINE6]
         if gl:
@@ -655,7 +687,7 @@ def gen_write(rng, annots=None, strict_share=0.8):
             perturb_value(rng.randrange(len(cols)))
     elif stream == "multi":
         for _ in range(rng.randint(2, 4)):
-            (perturb_value if rng.random() < 0.6 else perturb_class)(rng.randrange(len(cols)))
+            (perturb_value if rng.random() < 0.6 else perturb_class)(pick_col())
     elif stream == "shape":
         r = rng.random()
         if r < 0.25:
